@@ -77,14 +77,15 @@ impl ItemDefinitionEvaluator {
 /// to their ends is not followed again.
 fn check_references<'a>(item_definition: &'a ItemDefinition, definitions: &'a Definitions, chain: &mut HashSet<&'a str>, checked: &mut HashSet<&'a str>) -> Result<()> {
   if let Some(type_ref) = item_definition.type_ref() {
-    if super::type_ref_to_feel_type(type_ref).is_none() && !checked.contains(type_ref.as_str()) {
+    let type_ref = type_ref.trim();
+    if super::type_ref_to_feel_type(type_ref).is_none() && !checked.contains(type_ref) {
       // the evaluators are registered by name, the last item definition of a name is the one that is used
       if let Some(referenced_item_definition) = definitions.item_definitions().iter().rev().find(|v| v.name() == type_ref) {
         if !chain.insert(type_ref) {
           return Err(err_recursive_item_definition(type_ref));
         }
         check_references(referenced_item_definition, definitions, chain, checked)?;
-        chain.remove(type_ref.as_str());
+        chain.remove(type_ref);
         checked.insert(type_ref);
       }
     }
